@@ -16,5 +16,7 @@ pub trait FlatMapEager: Iterator + Sized {
         for x in self { for y in f(x) { assert!(e.len < CAP, "env/eager.rs: capacity exceeded"); e.items[e.len] = Some(y); e.len += 1; } }
         e
     }
+    /// eager stand-in for `.flatten()`
+    fn flatten_eager(self) -> Eager<<Self::Item as IntoIterator>::Item> where Self::Item: IntoIterator { self.flat_map_eager(|x| x) }
 }
 impl<T: Iterator> FlatMapEager for T {}
